@@ -446,7 +446,6 @@ func constsBuildAll(r *runner, f *cfFacts) {
 	r.sum.Extra["go_build_vet_wall_s"] = time.Since(start).Seconds()
 }
 
-
 // constsRunWasm executes the library on a build target that has no syscall table: the probe
 // (harness/cmd/wasmprobe, built for js/wasm next to this binary) is run by node.  There
 // arch.GetInfo("") and every Policy.Assemble must answer `unsupported arch`, and Supported() is false.
